@@ -498,3 +498,35 @@ pub fn jdbg<T: Debug>(t: &T) -> String {
 pub fn sj<T: Serialize>(t: &T) -> Value {
     serde_json::to_value(t).unwrap_or_else(|e| Value::String(format!("!ser:{}", e)))
 }
+
+/// Applies the setters listed in `extra["setters"]` (e.g. ["label:L", "admin:a", "funds:2"]) to an
+/// instantiate builder, builds (salted when `extra["salt"]` is given) and renders the message.
+pub fn obs_inst_builder(b: StdResult<sylvia::builder::instantiate::InstantiateBuilder>, extra: &Value) -> Obs {
+    let mut b = match b {
+        Ok(b) => b,
+        Err(e) => return json!({"res": "err", "err": e.to_string()}),
+    };
+    if let Some(setters) = extra.get("setters").and_then(|s| s.as_array()) {
+        for s in setters {
+            let s = s.as_str().unwrap_or("");
+            let (what, val) = s.split_once(':').unwrap_or((s, ""));
+            b = match what {
+                "label" => b.with_label(val),
+                "admin" => b.with_admin(val.to_string()),
+                "funds" => b.with_funds(vec![Coin { denom: "atom".into(), amount: Uint128::new(val.parse().unwrap_or(0)) }]),
+                _ => b,
+            };
+        }
+    }
+    let msg = match extra.get("salt").and_then(|s| s.as_str()) {
+        Some(salt) => b.build2(Binary::from(salt.as_bytes().to_vec())),
+        None => b.build(),
+    };
+    match msg {
+        cw::WasmMsg::Instantiate { admin, code_id, msg, funds, label } => json!({"res": "ok", "variant": "instantiate", "admin": admin, "code_id": code_id,
+            "msg": String::from_utf8_lossy(msg.as_slice()).to_string(), "funds": coins_json(&funds), "label": label, "salt": Value::Null}),
+        cw::WasmMsg::Instantiate2 { admin, code_id, label, msg, funds, salt } => json!({"res": "ok", "variant": "instantiate2", "admin": admin, "code_id": code_id,
+            "msg": String::from_utf8_lossy(msg.as_slice()).to_string(), "funds": coins_json(&funds), "label": label, "salt": String::from_utf8_lossy(salt.as_slice()).to_string()}),
+        other => json!({"res": "ok", "variant": "other", "dbg": format!("{:?}", other)}),
+    }
+}
